@@ -245,15 +245,6 @@ class RobotWarehouseH(Harness):
                 "shelves.position.x": m["sx"], "shelves.position.y": m["sy"], "step_count": sc,
                 "last": m["collision"] | (sc >= self.T)}
 
-    def kernels_c09(self, R):
-        """triage aid for the C09 violation on is_carrying: the SAME reference with the single deviation 'a NOOP (incl. the
-        NOOP that replaces an illegal FORWARD) also puts the load down off-highway' agrees with the code everywhere"""
-        from checks import drivers as D
-        sp = D.build_step(R, self, validate=0)
-        D.prove_list(R, sp, lambda st, act, ns, ts: [
-            ("S'.agents.is_carrying == reference modified by the known deviation (NOOP also unloads off-highway)",
-             X.eq_arr(vs(ns.agents.is_carrying), self._model(st, act, noop_drops=True)["ac"]))], prefix="kernel (not a rule of the game): ")
-
     def other_done(self, st, act, ns, ts):
         return self._model(st, act)["collision"]
 
